@@ -127,7 +127,7 @@ class C03(Prop):
         alen = None if big else rng.choice([1, 2, 10, 59, 60, 61, 120, 121, 199, 200, 201, 400])
         if abc == "text":
             gaps = {"a2m": "-.", "psiblast": "-", "phylip": "-", "phylips": "-", "clustal": "-", "clustallike": "-"}.get(fmt, "-._~" if fmt in ("stockholm", "pfam") else "-.")
-            lower = fmt in ("stockholm", "pfam", "afa", "selex")
+            lower = fmt in ("stockholm", "pfam", "afa", "selex", "a2m", "psiblast")
         else:
             gaps, lower = "-", False
         maxname = 10 if fmt in ("phylip", "phylips") and rng.random() < 0.7 else 14
@@ -184,8 +184,6 @@ class C03(Prop):
             # duplicate sequence names: Stockholm/Pfam force unique names by a "<seq#>|" prefix (the monitor skips its name comparison)
             i, j = rng.sample(range(a.n), 2); a.names[j] = a.names[i]; a.dup = True
             if a.n >= 11 and rng.random() < 0.5: a.names = [a.names[i]] * a.n
-            if self.avoid_known and fmt in ("stockholm", "pfam"):
-                a.gs = []        # known finding C03:stockholm:uniq-gs-index (the unparsed #=GS section numbers names with the tag index)
         return a
 
     def generated(self, ctx):
@@ -202,10 +200,10 @@ class C03(Prop):
                   "ops": ["rt fmt=stockholm abc=text n=2 alen=3 nm=61,62 sq=414347,412d47 sqdesc=~,666f6f"]})
         c.append({"name": "psiblast-O", "ops": ["rt fmt=psiblast abc=amino n=2 alen=4 nm=61,62 sq=4143444f,41434445",
                                                   "rt fmt=psiblast abc=text n=2 alen=4 nm=61,62 sq=4143444f,41436f45"]})
-        c.append({"name": "known-stockholm-uniq-gs", "known_key": "C03:stockholm:uniq-gs-index",
-                  "ops": ["rt fmt=stockholm abc=text n=3 alen=3 nm=61,61,62 sq=414347,412d47,414141 gs=4452:~,~,7171"]})
-        c.append({"name": "known-a2m-lowercase-o", "known_key": "C03:a2m:lowercase-o",
-                  "ops": ["rt fmt=a2m abc=text n=2 alen=4 nm=61,62 sq=41436f45,41434445"]})
+        c.append({"name": "stockholm-uniq-gs", "dup": True,       # weights pin the sequence order (see known finding first-mention-order)
+                  "ops": ["rt fmt=stockholm abc=text n=3 alen=3 nm=61,61,62 sq=414347,412d47,414141 w=3ff8000000000000,4000000000000000,3fe0000000000000 gs=4452:~,~,7171"]})
+        c.append({"name": "a2m-lowercase-o", "ops": ["rt fmt=a2m abc=text n=2 alen=4 nm=61,62 sq=41436f45,41434445",
+                                                       "rt fmt=a2m abc=text n=2 alen=4 nm=61,62 sq=412d4745,416f4745"]})
         return c
 
     def cases(self, ctx):
@@ -360,7 +358,7 @@ class C03(Prop):
                     if digital:
                         if c != c2: return "residue code of row %d column %d changed %d -> %d" % (i, j, c, c2)
                     elif bytes([c]).upper() != bytes([c2]).upper(): return "residue of row %d column %d changed %r -> %r" % (i, j, chr(c), chr(c2))
-                    elif fmt in ("afa", "selex", "clustal", "clustallike", "phylip", "phylips") and c != c2:
+                    elif fmt in ("afa", "selex", "clustal", "clustallike") and c != c2:
                         return "case of residue row %d column %d changed %r -> %r in a case-preserving format" % (i, j, chr(c), chr(c2))
         return None
 
